@@ -292,7 +292,10 @@ def c18(ck):
         # upgraded sessions
         for mode in ("resolver", "connect"):
             args = {"resolver": ["--resolver", sv.r, "bridge"], "connect": ["bridge", "--connect", sv.a]}[mode]
-            for payload in (b"raw payload after upgrade\0with nul", bytes(rng.randrange(256) for _ in range(300))):
+            # the last two: exactly one / two read buffers (8192) of payload with a line end shortly before the end,
+            # after which the client waits - everything received must have been forwarded, not held back
+            for payload in (b"raw payload after upgrade\0with nul", bytes(rng.randrange(256) for _ in range(300)),
+                            b"A" * 8000 + b"\n" + b"B" * 191, b"C" * 16000 + b"\n" + b"D" * 383):
                 up = req("org.example.a.Run", {"script": ["u", "r"], "tag": "up"}, upgrade=True)
                 parts = [enc(rq(A, ["r"], 0)), enc(up)]
                 out, rc, err, to = run_bridge(args, parts, 2)
@@ -391,7 +394,8 @@ def c20(ck):
         cases.append((["E:com.example.Custom"], False, 0))
         # the final reply spells out "continues": false
         cases += [(["rf"], True, 1), (["c1", "r", "r", "c0", "rf"], True, "s"), (["rf"], False, 2)]
-        addrs = [("unix-deep", sv.a), ("tcp", sv.tcp), ("resolver", None)]
+        # "unix-mode": the documented parameter form unix:/path;mode=0600 names the same socket
+        addrs = [("unix-deep", sv.a), ("tcp", sv.tcp), ("resolver", None), ("unix-mode", sv.a + ";mode=0600")]
         n = 0
         for sc, more, v in cases:
             form, addr = addrs[n % len(addrs)]
@@ -414,7 +418,7 @@ def c20(ck):
             err = SGR.sub("", p.stderr.decode("utf-8", "replace"))
             # what the service replies (direct socket)
             r = req(method, params, **({"more": True} if more else {}))
-            direct = sv.direct(sv.a if addr != sv.tcp else sv.tcp, enc(r))
+            direct = sv.direct(sv.a if addr != sv.tcp else sv.tcp, enc(r))   # (the parameter form reaches the same service as sv.a)
             replies = [loads(x.decode("utf-8")) for x in frames_of(direct)]
             exp_print, exp_ok = [], True
             complete = False
